@@ -4,6 +4,21 @@ import json, os
 HERE = os.path.dirname(os.path.abspath(__file__))
 
 CLAIMED = {
+ 'C05': dict(
+   text='A two-world affinity inference (caller graph G vs internal spanner S: same C++ type, different ownership) over all instantiated approximate algorithms decides that nothing reaching the caller\'s output iterator is a descriptor of S, that every weight term of the returned value is read through the caller\'s map for the emitted edge, that each spanner edge gets the input weight and a translation-table entry on the path that adds it, that the table is read with at()/find, that every BGL call pairs descriptors with their own graph, and that the exact phase is skipped only for (m, n) for which every simple graph is a forest. These are the structural ways the descriptor/weight clauses can fail; that the cycles form a basis is value-level and not claimed.',
+   note='Flow-insensitive per variable, inter-procedural over the approx classes; BGL accessor semantics and the summary "exact entry points emit only descriptors of their graph argument" are trusted. Number and independence of cycles are not decided.',
+   technique='type-like world inference (abstract interpretation over a 4-point lattice + key/value worlds) on the instantiated AST; CFG path enumeration; finite abstract evaluation of guards',
+   ref='DESIGN.md §3 A5, §4 C05'),
+ 'C06': dict(
+   text='The rejecting guard of run() is constant-folded with k := 0 and k in {1,2,3,7,1000} in the modular arithmetic of its C++ type (so an unsigned wrap-around is seen) and must dominate every use of the iterator; the hop bound is evaluated over a (k, n) grid against [min(2k-1, n-1), 2k-1]; the scan order, weighted spanner, non-skipped exact phase, Dijkstra-on-S closing path and absence of an early exit in the relaxation loop of parmcb::dijkstra are checked structurally. The numeric (2k-1) bound follows from these premises by the textbook argument, which is not mechanised: the bound itself is not claimed.',
+   note='Premises only; is_bfs_reachable/dijkstra functional correctness beyond the named clauses is assumed.',
+   technique='abstract evaluation (constant folding in the type\'s arithmetic) of guards and bounds; dominance on the CFG; world inference',
+   ref='DESIGN.md §4 C06'),
+ 'C15': dict(
+   text='Every structural clause of the greedy spanner construction is decided on the CFG/AST of construct_spanner and is_bfs_reachable: the whole edge set is scanned in non-decreasing input weight; each path through an iteration performs exactly one of retain/drop; the hop bound evaluates to 2k-1 on a (k, n) grid; an edge is retained exactly when the bounded BFS says "not reachable"; the BFS can answer true only within the bound; retained edges carry the input weight and are recorded in the translation table; all BGL calls respect graph ownership.',
+   note='Assumes FIFO order of std::queue and completeness of the BFS exploration; stretch/girth as graph-theoretic consequences are not re-proved.',
+   technique='CFG path enumeration, A3 truth tables over orderings, abstract evaluation of the bound, world inference',
+   ref='DESIGN.md §4 C15'),
  'C20': dict(
    text='Decides on the instantiated AST/CFG that every tbb::global_control created by set_global_tbb_concurrency is stored, on every path and on every call, into an owner with static storage duration (or returned to the caller), and that in each demo main with a "cores" option the knob call reaches every *_tbb entry-point call and its control dependence relative to those calls consists only of the options cores/parallel with positive polarity. These are exactly the two ways the property can fail; both are visible in the shape of the code.',
    note='Assumes TBB semantics of global_control (limit in force while the object is alive). Only the TBB configuration is analysed (the knob does not exist otherwise). Option atoms are recognised as vm["key"].as<T>() / vm.count("key"); anything else is reported as undecided (exit 2), never as a pass.',
